@@ -220,6 +220,9 @@ PTwoUnpriced(p, nd, k) ==
   /\ PMaster(p, nd, k)
   /\ LET ids == ChildIds(p.pools, p.gauges[k]) IN
      \E i \in 1..Len(ids), j \in 1..Len(ids) : i < j /\ Unpriced(p, ids[i]) /\ Unpriced(p, ids[j])
+(* a swap-fee gauge paid and booked its deposit although the fee pull failed afterwards (pair with several pools, one oracle *)
+(* price missing): the books move, the trigger count does not                                                                 *)
+PXferFailBooked(p, nd, k) == SwapPaidSome(p, nd, k) /\ p.pools[p.gauges[k].pool].multi /\ nd.st.gauges[k].trig = p.gauges[k].trig
 PMultiPaid(p, nd, k) == SwapPaidSome(p, nd, k) /\ p.pools[p.gauges[k].pool].multi
 PFeeShared(p, nd, k) == SwapPaidSome(p, nd, k) /\ \E j \in 1..Len(p.gauges) :
                           p.gauges[j].kind = "reg" /\ p.gauges[j].active /\ p.gauges[j].denom = p.gauges[k].denom
@@ -254,6 +257,7 @@ Stats == PrintT(<<"STATS", [nodes |-> NLog,
    swapBurnEpochs |-> GaugeEpochs(PSwapBurn),
    swapSharedDenomPaid |-> GaugeEpochs(PFeeShared),
    multiPoolSwapPaid |-> GaugeEpochs(PMultiPaid),
+   feePullFailedBooked |-> GaugeEpochs(PXferFailBooked),
    masterManyChildren |-> GaugeEpochs(PManyChildren),
    unpricedChildBeforePaid |-> GaugeEpochs(PUnpricedBefore),
    twoUnpricedChildren |-> GaugeEpochs(PTwoUnpriced),
